@@ -12,4 +12,9 @@ done
 rm -f /tmp/sany.$$
 /venv/bin/python -c "import sys; sys.path.insert(0,'harness'); import refs; refs.selftest(); print('reference oracles ok')"
 mkdir -p evidence replays
+# negative controls of the binding: genuine recordings are accepted, the same recordings with ONE field corrupted are rejected
+# by TLC with the expected clause (TrPair, TrWcag, TrSearch, TrBatch, TrApi, TrCli)
+PYTHONHASHSEED=0 CM_COLORS_VERIF=1 PYTHONPATH="${VERIF_REPO:-/repo}/src" /venv/bin/python harness/selftest_binding.py
+# the razor-pair catalogue is input data: every listed pair really lies within 3e-7 of its threshold (exact tables)
+/venv/bin/python tools/check_razor_pairs.py
 echo "setup ok"
